@@ -6,41 +6,41 @@ CHECKS = {
  "C01": ("model_checking", "6 C01", "exhaustive enumeration of (built-in type expression, small-scope value) pairs, each executed on the real library and compared with the independent format model",
          "No (type expression of depth <= 3 over all built-in constructors, value of its boundary-value domain) fails to round trip bit-exactly through serialize_to_byte_vec / serialize_to_bytes / deserialize, and the model decodes the same bytes to the same value. Coverage statement within the bounds, not a proof for unbounded nesting."),
  "C02": ("translation_validation", "6 C02", "translation validation of the derive macro: every generated declaration x every small-scope value, derived impl vs the declaration interpreted by the independent model vs a field-by-field driver over the real Adt* API",
-         "For every declaration of the generated grammar (1 174 quick / 3 763 thorough programs) and every value: derived bytes == model bytes == driver bytes; decode of the own encoding and of every alternative form agrees three ways; truncations and single-byte rewrites are judged alike by the derived impl and the driver."),
+         "For every declaration of the generated grammar (1 174 quick / 3 763 thorough programs) and every value: derived bytes == model bytes == driver bytes; decode of the own encoding and of every alternative form agrees three ways; truncations and single-byte rewrites are judged alike by the derived impl and the driver. History declarations rotate over five spellings of their field types (incl. parenthesised and macro_rules `$t:ty` fragments)."),
  "C03": ("model_checking", "6 C03", "exhaustive enumeration of legal evolution histories x (writer, reader) pairs x values x placements on the real record machinery, against a semantic outcome oracle and the model's byte-level reader",
          "Every legal history up to the depth bound, every version pair along it, every small-scope value, at top level and embedded (v0 outer, evolved outer, Vec): the reader's result equals expected(H,w,r,v) (value or the specific error naming the field) and sibling data is intact. Derived types to depth 2/3, dynamic driver over the real AdtSerializer/AdtDeserializer to depth 3/4."),
  "C04": ("model_checking", "6 C04", "byte-for-byte comparison of every encoding of the universe with an independent reference encoder anchored to the Scala golden file; decode of every alternative legal form",
          "For every (type, value) of the universes the library's bytes equal the reference encoder's, and every assignment of alternative legal forms (unknown-size sequences, re-plain dedup strings) decodes to the denoted value. The model itself reproduces the 242 540 Scala golden bytes exactly (refmodel/tests/golden.rs)."),
  "C05": ("model_checking", "6 C05", "exhaustive enumeration of short byte strings over a format alphabet and over all byte values, and of all 1-point (thorough: 2-point) tamperings / framing rewrites / splices of valid encodings, per target type and build profile, under panic, watchdog and allocation monitors",
-         "For every table row (952 type expressions + 1 174 declarations quick) every byte string over the 12-byte alphabet up to length 4/5 (5/7 for the deep set), every byte string over all 256 values up to length 2 (3), every operation sequence on the three low-level readers, and every tampering of every valid encoding decodes to Ok or Err - no unwind, no abort (child process), no hang (watchdog), no single allocation request above max(64 KiB, 16 x input length) - in an overflow-checked and in a plain release build. Containers of zero-width elements are the recorded known finding."),
+         "For every table row (952 type expressions + 1 174 declarations quick) every byte string over the 12-byte alphabet up to length 4/5 (5/7 for the deep set), every byte string over all 256 values up to length 2 (3), every operation sequence on the three low-level readers, and every tampering of every valid encoding decodes to Ok or Err - no unwind, no abort (child process), no hang (watchdog), no single allocation request above max(64 KiB, 16 x input length) - in an overflow-checked and in a plain release build. Containers of zero-width elements are the recorded known finding. Also: four nested-evolved declarations and, per history declaration, the encodings written by every other version of its histories (untouched and 1-point tampered); the operation sequences also run on a context inside a chunk of an evolved record."),
  "C06": ("model_checking", "6 C06", "same executions as C05; whenever the library accepts an input the strict reference decoder (leniencies of DESIGN 4.5 only) must assign it the same value",
-         "Sandwich of the accepted language: every input of the C05 sweeps that the library decodes to Ok(v) is decoded to the same v by the strict reference decoder (about 50 M accepted inputs in the quick tier, 7.9 G in the thorough tier); together with C04-backward this bounds the decoder from both sides."),
+         "Sandwich of the accepted language: every input of the C05 sweeps that the library decodes to Ok(v) is decoded to the same v by the strict reference decoder (about 50 M accepted inputs in the quick tier, 7.9 G in the thorough tier); together with C04-backward this bounds the decoder from both sides. Also over the encodings written by every other version of each history (untouched and 1-point tampered) and the nested-evolved declarations."),
  "C07": ("model_checking", "6 C07", "exhaustive enumeration of (type, value, suffix) and (history, w, r, value, suffix): decode from a DeserializationContext, then observe the unread bytes",
          "For every value of the universes and 8 suffixes, decoding consumes exactly the encoding; for evolved records under every writer/reader pair with stored version >= 1 (and version 0 without removals)."),
  "C08": ("fault_enumeration", "6 C08", "enumeration of every cut point of every encoding of the universes (crash-point enumeration of a torn write)",
          "Every strict prefix of every encoding (all cut points up to 600 bytes, boundary-heavy subset beyond) is rejected with Err; evolved records also under every other definition of their history when the stored version is >= 1."),
  "C09": ("model_checking", "6 C09", "exhaustive enumeration of scripts of deduplicated / plain string writes x seven placements, executed on the real library and compared with the model and with the statement's own id arithmetic",
-         "All scripts up to length 5 (6) over 8 operations in 7 placements: decoded strings equal the written ones, ids follow first occurrence in stream-processing order (header names first), streams without repeats are byte-identical to the plain stream, unknown ids are Err."),
+         "All scripts up to length 5 (6) over 8 operations in 7 placements: decoded strings equal the written ones, ids follow first occurrence in stream-processing order (header names first), streams without repeats are byte-identical to the plain stream, unknown ids are Err. An eighth placement names two fields twice each in the header (made optional, later removed / made transient)."),
  "C10": ("model_checking", "6 C10", "exhaustive enumeration of rooted digraphs (<= 3 / 4 nodes, out-degree <= 2) through a safe harness codec on the public reference-tracking API, against a reference pre-order numbering and an isomorphism check with pointer equality",
-         "All 2 249 (quick) / 196 730 (thorough) graphs, plus graphs with two tracked object types at one address and chains of up to 600 nodes: stream equals the reference stream, decoded graph is isomorphic with shared nodes shared and distinct nodes distinct, encoding terminates on every cyclic graph, every reference id beyond the objects introduced so far is Err."),
+         "All 2 249 (quick) / 196 730 (thorough) graphs, plus graphs with two tracked object types at one address and chains of up to 600 nodes: stream equals the reference stream, decoded graph is isomorphic with shared nodes shared and distinct nodes distinct, encoding terminates on every cyclic graph, every reference id beyond the objects introduced so far is Err. Every graph also as a field of a record through the real Adt API (plain, chunk 0, chunk 1); one object offered from code in two crates stays one object."),
  "C11": ("model_checking", "6 C11", "exhaustive enumeration of all 2^32 unsigned and all 2^32 signed values against a reference formula (no bound)",
          "Quick: all 2^33 values through Vec<u8> -> SliceInput plus a structured boundary subset through the other 16 combinations; thorough: all 2^33 values through all 18 (signedness, sink, source) combinations. Exhaustive outright in the thorough tier."),
  "C12": ("model_checking", "6 C12", "exhaustive enumeration of element lists x source containers x target containers x size forms, decode followed by a sentinel",
-         "All lists of length <= 3 over 5 element types, every source (incl. slices and reference-built unknown-size streams) read as every target container; maps and byte containers pairwise."),
+         "All lists of length <= 3 over 5 element types, every source (incl. slices and reference-built unknown-size streams) read as every target container; maps and byte containers pairwise. Also u8 elements among list / sets, and streams of up to 300 (5 000) sibling sequences in every combination of size forms read as four nested containers."),
  "C13": ("model_checking", "6 C13", "exhaustive enumeration of enum declarations with one-variant extensions x values x constructor indices, compiled and through the dynamic driver",
          "All enums with <= 3 variants over 7 variant kinds, sorted and unsorted, each with its extensions: old data keeps its meaning under the extension, new-variant data and every unknown / transient index is Err (never an unwind), leading bytes are 00 varu(index)."),
  "C14": ("model_checking", "6 C14", "exhaustive enumeration of declarations with transient fields / constructors x values; histories ending in FieldMadeTransient",
          "Transient fields never change the bytes and decode to their declared default (defaults differ from every enumerated value); transient constructors give the dedicated error through every sink; every history prefix ending in FieldMadeTransient stays encodable."),
  "C16": ("fault_enumeration", "6 C16", "enumeration of contents x levels x sinks x sources, frames parsed independently and inflated by Python zlib; per frame every truncation, every single-bit flip and boundary rewrites of both header fields",
-         "Round trip and true framing for the whole corpus at every compression level; raw DEFLATE streams inflate identically under Python's zlib; every truncation is Err; every bit flip / header rewrite is Ok or Err without unwinding and without an allocation request out of proportion."),
+         "Round trip and true framing for the whole corpus at every compression level; raw DEFLATE streams inflate identically under Python's zlib; every truncation is Err; every bit flip / header rewrite is Ok or Err without unwinding and without an allocation request out of proportion. Contents <= 4 KiB also inside records through the real Adt API (plain, chunk 0, chunk 1), with every truncation of those records."),
  "C17": ("model_checking", "6 C17", "exhaustive enumeration of all Unicode scalar values, boundary lengths on zero-width containers and exact-size iterators, metadata naming unknown fields, and every value of the universe",
-         "Every encode returns Ok or the documented Err variant (UnsupportedCharacter with the character, LengthTooLarge at and above 2^31, SerializingTransientConstructor, UnknownFieldReferenceInEvolutionStep); no unwind anywhere in the enumerated space."),
+         "Every encode returns Ok or the documented Err variant (UnsupportedCharacter with the character, LengthTooLarge at and above 2^31, SerializingTransientConstructor, UnknownFieldReferenceInEvolutionStep); no unwind anywhere in the enumerated space. Also every evolution step list of length <= 3 (4) over four step kinds x three names, legal or not."),
  "C15": ("model_checking", "6 C15", "exhaustive enumeration of (type, value) x six sinks on the same instance; op-sequence exploration on the three sources",
-         "Bytes through Vec, BytesMut, serialize_to_bytes, serialize_to_byte_vec and a recording user output are identical and SizeCalculator equals their length, for every value of the universes; the three BinaryInput implementations agree step by step on every operation sequence of depth <= 3 (4) over 22 operations with boundary and extreme counts on every short input."),
+         "Bytes through Vec, BytesMut, serialize_to_bytes, serialize_to_byte_vec and a recording user output are identical and SizeCalculator equals their length, for every value of the universes; the three BinaryInput implementations agree step by step on every operation sequence of depth <= 3 (4) over 22 operations with boundary and extreme counts on every short input. Also: the context inside a chunk of an evolved record as a fourth input implementation; every script (length <= 2 / 3) of the 18 output primitives issued by a field codec in four placements through three sinks."),
  "C18": ("model_checking", "6 C18", "stateless exploration of all interleavings (shuttle DFS scheduler, no preemption bound) of small thread bodies on the real code with scheduler-visible metadata statics and hook points; every call sequence up to a depth in fresh processes",
-         "No interleaving of 2 (thorough: 3) threads doing first-use / steady-state encode and decode, under three hook granularities, and no sequence of up to 3 (4) prior calls (11 calls, one failing half-way, one filling the reference table) changes what a call returns: each result equals the result of the call alone and the reference model's bytes. 2.7 M schedules in the quick tier, none capped. A supplementary part samples free-running OS threads and is labelled as sampling in the evidence; it carries no claim."),
+         "No interleaving of 2 (thorough: 3) threads doing first-use / steady-state encode and decode, under three hook granularities, and no sequence of up to 3 (4) prior calls (11 calls, one failing half-way, one filling the reference table) changes what a call returns: each result equals the result of the call alone and the reference model's bytes. 2.7 M schedules in the quick tier, none capped. A supplementary part samples free-running OS threads and is labelled as sampling in the evidence; it carries no claim. (f) every row of the type table used first in a fresh process, then every row, compared with a process without that first use. Supplementary, sampled and labelled so: (d) free-running OS threads, (e) the bodies on real threads under Miri's data-race detector."),
  "C19": ("exploration", "6 C19", "enumeration of all client programs of a grammar over the object-table API under #![forbid(unsafe_code)] (compiler verdict, then Miri on every accepted program); every short input through the unsafe decode paths natively and under Miri",
-         "Every program of the grammar that the compiler accepts is executed under Miri: accepted => no undefined behaviour (the programs that are accepted and UB are the recorded known finding about State::store_ref). 3 367 (quick) inputs through 12 array / byte-vector decode paths and a reference-lookup codec run under Miri without UB and with output identical to the native run."),
+         "Every program of the grammar that the compiler accepts is executed under Miri: accepted => no undefined behaviour (the programs that are accepted and UB are the recorded known finding about State::store_ref). 3 367 (quick) inputs through 12 array / byte-vector decode paths and a reference-lookup codec run under Miri without UB and with output identical to the native run. The sweep also covers the decoders of char / bool / String / DeduplicatedString on inputs that violate their validity invariants in every possible way."),
 }
 
 NOT_YET = {
